@@ -174,7 +174,8 @@ def extractable(fields: list) -> list:
     return out
 
 
-def run(tier: str) -> int:
+def run(tier: str, only_key: dict | None = None) -> int:
+    """`only_key` (replay): the comparison is global, so the quick check is executed again and the violations with that key are kept."""
     """M1  Pipeline.tla over the full configuration grid (12 000 configurations): Reachable classes, failing combinations.
     M2  every configuration -> real Model() + read_parameters: same classes / same failures (model fit).
     M3  the generated schemas, the committed files and the live ParameterDicts are the trace; TraceSchema.tla evaluates the
@@ -288,9 +289,11 @@ def run(tier: str) -> int:
                        'complete in both tiers')
     res.assumptions += ['"defined identically" = equal (type, unit, default, min, max) in every reachable class that accepts the name',
                         'numbers compared exactly (1e-12) after reading numeric strings as numbers']
+    if only_key is not None:
+        res.violations = [v for v in res.violations if v[0] == only_key]
+        res.known = [k for k in res.known if k.get('key') == only_key]
     return res.finish()
 
 
 def replay(path: str) -> int:
-    print(open(path).read()[:2000])
-    return 0
+    return run('quick', json.loads(open(path).read())['key'])
